@@ -27,7 +27,8 @@ META = {
     'technique': 'Coq proof about an executable Gallina model + kernel-evaluated correspondence with the implementation',
     'rule': ('settings files drawn from one PRNG: 2-6 INPUT lines over normal/uniform/triangular/lognormal/binomial (both comma '
              'styles), 1-4 OUTPUT lines, HIP-RA-X base; real MC_GeoPHIRES3.main runs with os.cpu_count patched to W in '
-             '{1,2,4,16} (thorough: more settings, 300 iterations), plus two forced lock interleavings on real work packages; a '
+             '{1,2,4,16} (thorough: more settings, up to 400 iterations), plus corpus seeds: fork-copy witness, two forced lock interleavings on '
+             'real work packages and a run into a directory holding the stale lock of a dead process; a '
              'run is non-trivial when at least two workers executed tasks; distinct = distinct (W, distributions used) signatures; '
              'evaluations = sampled values + rows + numpy calls checked'),
     'trusted_base': ['Coq 8.16.1 kernel + vm_compute (no native_compute)',
